@@ -22,7 +22,7 @@ REQUIRE = {'streams_drop': 50, 'streams_nondrop': 50, 'streams_with_offset': 50,
            'gaps_exactly_five_frames': 3, 'gaps_open': 20, 'last_caption_four_seconds': 50,
            'flash_cue_streams': 10, 'times_compared': 500, 'captions_split_same_times': 10,
            'streams_beginning_before_the_offset': 20, 'reads_with_lang_option': 50,
-           'reads_by_a_reader_object_used_before': 100}
+           'reads_by_a_reader_object_used_before': 100, 'streams_with_a_load_that_loads_nothing': 100}
 CW = Fraction(1001000, 30)        # one code word at 29.97 fps, in microseconds
 
 
@@ -32,6 +32,12 @@ def gen(rng):
         if c['edm'] == 'separate':
             c['edm_gap'] = rng.choice([0, 0, 1, 2, 3, 4, 5, 6, 7, 10, 30, 90, 900])
         c['gap'] = rng.choice([0, 0, 1, 2, 3, 4, 5, 6, 7, 8, 10, 40, 100, 900])
+    if rng.random() < 0.2:
+        # a load that loads nothing: ENM RCL [EDM] EOC only clears the screen (the memories are swapped)
+        k = rng.randrange(1, len(prog['captions']) + 1)
+        prog['captions'].insert(k, {'rows': [], 'edm': rng.choice(['inline', 'inline', 'none', 'separate']),
+                                    'edm_gap': rng.choice([0, 1, 5, 30]), 'enm': True,
+                                    'gap': rng.choice([0, 0, 1, 2, 4, 5, 6, 10, 40])})
     offset = rng.choice([0, 0, 0, 1, 2, 3600])
     start_frame = offset * 30 + rng.choice([0, 1, 15, 28, 29, 30, 59, 1799, 1800, 107999, 108000, 2589410])
     if offset and rng.random() < 0.3:
@@ -137,6 +143,8 @@ def check(case, ctx):
     doc = G.scc_doc(lines)
     caps, gaps = model(lines, prog['drop'], case['offset'])
     ctx.count('streams_drop' if prog['drop'] else 'streams_nondrop')
+    if any(not c['rows'] for c in prog['captions']):
+        ctx.count('streams_with_a_load_that_loads_nothing')
     if case['offset']:
         ctx.count('streams_with_offset')
         if case['start_frame'] < case['offset'] * 30:
